@@ -249,7 +249,7 @@ func runAliasTest(c *Case) []string {
 func genC14(tier string, r *Rng, emit func(Case)) {
 	n := 150
 	if tier == "thorough" {
-		n = 2500
+		n = 1200
 	}
 	ctors := []string{"SqrtBigInt", "CubeRootBigInt", "SqrtBigRat", "CubeRootBigRat", "FromBigRat"}
 	for i := 0; i < n; i++ {
